@@ -89,6 +89,9 @@ def _run_main(ctx):
         # decode: ordered script
         scr, evs, ret = A.fn_script(ctx, U + 'decode')
         site = ctx.site(U + 'decode')
+        # the first path segment always exists (`split` yields at least one item): `.unwrap()` and `.unwrap_or("")` name the same value
+        SEG = "<std::str::Split<'a, P> as std::iter::Iterator>::next(url::Url::path_segments(url).Some.0)"
+        scr = [l.replace('std::option::Option::unwrap_or(%s, "")' % SEG, 'std::option::Option::unwrap(%s)' % SEG) for l in scr]
         # every step carries its whole guard context and sets its own field, so the steps are compared as a set:
         # which branch of an if/else is written first is not behaviour
         for i, want in enumerate(DECODE_SCRIPT):
